@@ -5,7 +5,7 @@
    means by them, on the decimal VALUES the texts denote. *)
 From Coq Require Import List ZArith NArith Bool.
 From JS Require Import Base.Res Spec.Decimal Model.AllOf Model.Number Model.EnumParse Model.RuleSem Model.OasSem Model.OasLeaf Model.OasTree
-  Proofs.DigitArith Proofs.NumberCmp Proofs.NumberNorm Proofs.NumberScan Proofs.NumberMain Proofs.RuleProofs Proofs.OasProofs Proofs.OasLeafProofs Proofs.OasTreeProofs.
+  Proofs.DigitArith Proofs.NumberCmp Proofs.NumberNorm Proofs.NumberScan Proofs.NumberMain Proofs.RuleProofs Proofs.OasProofs Proofs.OasLeafProofs Proofs.OasTreeProofs Model.OasRef Proofs.OasRefProofs.
 Import ListNotations.
 
 (* every value the checker accepts for a node (type + min/max with exclusivity, whatever the spelling of value and
@@ -44,6 +44,30 @@ Print Assumptions C08_tree_sound.
 Theorem C08_example_valid : forall n, accepted n -> tvalid (to_otree n) (example n).
 Proof. exact example_valid. Qed.
 Print Assumptions C08_example_valid.
+
+(* ---- schemas with references (Model/OasRef.v): a value written as a type name and additionalProperties naming a type are
+   converted to $ref; `types` are the registered types, the components are their conversions.  A reference accepts what the
+   type accepts (insth h: by a derivation of height h - so recursive types are covered).  Every accepted value is valid
+   against the converted schema with the references resolved in the components ... *)
+Theorem C08_ref_sound : forall types, types_accepted types ->
+  forall h n v, accepted_e types n -> insth types h n v -> tvalid_e types (to_otree n) v.
+Proof. exact tree_sound_env. Qed.
+Print Assumptions C08_ref_sound.
+(* ... in particular the example, for schemas whose references are not recursive (the fuel suffices; the cut-off of the
+   builder on recursive types is C06's model, Model/Recursion.v, and those examples are judged by the validator) *)
+Theorem C08_ref_example_valid : forall types, types_accepted types ->
+  forall fuel n v, accepted_e types n -> example_e types fuel n = Some v -> tvalid_e types (to_otree n) v.
+Proof. exact example_e_valid. Qed.
+Print Assumptions C08_ref_example_valid.
+(* not vacuous: @node = {"v": 1, "next": @node // {optional: true, nullable: true}} is an accepted environment, the schema
+   [@node] has the instance [{"v": 1, "next": {"v": 1}}] (height 5), and the example of {"n": @leaf} with @leaf = 1 is found *)
+Example C08_ref_example :
+  let node := SObj [([118], (false, SLeaf [49] (Leaf KInt []))); ([110;101;120;116], (true, SRef [110;111;100;101] true))] APFalse false in
+  let types := [([110;111;100;101], node); ([108;101;97;102], SLeaf [49] (Leaf KInt []))] in
+  to_otree (SArr [SRef [110;111;100;101] false] None None false) = OArr [ORef [110;111;100;101] false] None None false /\
+  example_e types 5 (SObj [([110], (false, SRef [108;101;97;102] false))] APFalse false) = Some (JObj [([110], JLit [49])]) /\
+  example_e types 50 (SRef [110;111;100;101] false) = None.
+Proof. vm_compute. auto. Qed.
 
 Example C08_tree_example :
   (* { "a": 0.25 // {precision: 2}, "b": [1, "x"] // {optional: true} } *)
